@@ -214,6 +214,8 @@ def collect(h):
         _check_conditions(h, rel, fn, arms, corr)
         cl = lambda b, fn=fn: _log_op(h, rel, b, fn)  # noqa: E731
         items.append((f"c05_{key}_ops", "list N", _table(arms, cl, corr, False), f"{rel} {fn}: switch arms, ordinary events"))
+        if key == "wlog":
+            wlog_table_codes = [int(x) for x in re.findall(r"(\d)%N", _table(arms, cl, corr, False))]
         items.append((f"c05_{key}_corrupted_ops", "list N", _table(arms, cl, corr, True), f"{rel} {fn}: switch arms, sys.Corrupted events"))
     body = h.func_body(rel, r"^func \(recs \*appRecordsType\) putRecordsBatch\(", "putRecordsBatch")
     arms = _switch_arms(h, rel, body, "putRecordsBatch")
@@ -224,8 +226,22 @@ def collect(h):
     # apply2 hands its isReapply argument through; ApplyRecords passes true, Apply2 false
     h.find(rel, r"func \(er \*implIEventReapplier\) ApplyRecords\(\) error \{\s*return er\.app\.records\.apply2\(er\.plogEvent, nil, true\)", "ApplyRecords -> apply2(..., true)")
     h.find(rel, r"return recs\.apply2\(event, cb, false\)", "Apply2 -> apply2(..., false)")
+    # the re-applier's WLog write: a direct storage.Put, or the regular PutWlog under a RAISED trust level.  The level
+    # is a field of the app structs all partitions share, so the second shape opens a window in which every other
+    # write of the application runs fully trusted (flag c05_reapply_wlog_raises_level)
     body = h.func_body(rel, r"^func \(er \*implIEventReapplier\) PutWLog\(", "implIEventReapplier.PutWLog")
-    items.append(("c05_reapply_wlog_op", "N", str(_log_op(h, rel, body, "implIEventReapplier.PutWLog")), f"{rel} implIEventReapplier.PutWLog"))
+    n_level_writes = len(re.findall(r"seqTrustLevel\s*=[^=]", h.src(rel)))
+    if re.search(r"er\.app\.seqTrustLevel\s*=\s*isequencer\.SequencesTrustLevel_2", body) and re.search(r"er\.app\.events\.PutWlog\(er\.plogEvent\)", body) \
+            and "storage." not in body:
+        if n_level_writes != len(re.findall(r"seqTrustLevel\s*=[^=]", body)):
+            raise h.Missing(f"{rel}: seqTrustLevel is assigned outside implIEventReapplier.PutWLog")
+        raises, rw_op = True, wlog_table_codes[2]
+    else:
+        if n_level_writes != 0:
+            raise h.Missing(f"{rel}: seqTrustLevel is assigned after construction")
+        raises, rw_op = False, _log_op(h, rel, body, "implIEventReapplier.PutWLog")
+    items.append(("c05_reapply_wlog_op", "N", str(rw_op), f"{rel} implIEventReapplier.PutWLog"))
+    items.append(("c05_reapply_wlog_raises_level", "bool", "true" if raises else "false", f"{rel} implIEventReapplier.PutWLog: writes through PutWlog under a raised shared trust level"))
     # apply2 / applyRecs: is the stored record of an update read before the batch is written always, or only for
     # an event that was read back from the log (empty origin)?
     et = "pkg/istructsmem/event-types.go"
